@@ -22,6 +22,7 @@ from harness.util import vec, stack, first_failures
 
 ID = 'C05'
 LEVEL = 'proof'
+PROPERTY_MODULES = ['PanqecVerif.Properties.C05', 'PanqecVerif.Properties.C05UnionFind']
 LEVEL_TEXT = ('Lean theorems for every CSS parity-check matrix (pure-X / pure-Z rows, any size), every error and '
               'every weight vector: under the stated solver contracts the corrections assembled by MatchingDecoder, '
               'UnionFindDecoder and BeliefPropagationOSDDecoder (CSS split; non-CSS full matrix with the halves '
@@ -44,10 +45,28 @@ LEVEL_TEXT = ('Lean theorems for every CSS parity-check matrix (pure-X / pure-Z 
               'as a parameter; for every matrix, syndrome and messages: with max_bp_iter >= 1 the result is binary '
               'of length 2n and is exactly the vector tested by the last executed iteration (the final reverse and '
               'swap cancel); the loop stops at the first iteration that reaches the syndrome, so a run that reaches '
-              'it within the budget reproduces the syndrome; max_bp_iter = 0 raises UnboundLocalError.')
+              'it within the budget reproduces the syndrome; max_bp_iter = 0 raises UnboundLocalError. '
+              'The INTERNALS of the union-find decoder (uf_support.py: cluster '
+              'growth by half-edges, find_root with path compression, merge_clusters, _update_parents, the '
+              'breadth-first spanning tree, peeling, the correction vector) are modelled executably '
+              '(Model/UnionFind.lean) and compared with the running implementation step by step on every run; for '
+              'every closed graph (0/1 matrix, every column of weight 0 or 2, no parallel edges: the toric lattices '
+              'with sides >= 3), every error and every iteration order of the Python sets it is proved that the growth '
+              'loop terminates, every cluster is connected and even, _build_tree returns a spanning tree, peeling '
+              'returns qubits whose boundary is exactly the defect set, and Support.decode() returns a binary '
+              'length-n vector with exactly the given syndrome, which discharges the union-find solver contract: '
+              'UnionFindDecoder.decode reproduces the syndrome with no hypothesis left; with dangling edges (planar '
+              'codes) partial correctness is proved and non-termination exhibited; the model is proved to FAIL on '
+              'Toric2DCode(2,2) (parallel edges) exactly as the implementation does.')
 LEVEL_NOTE = ('trusted (modelled, not verified): PyMatching Matching.decode (returns a minimum-weight solution of '
-              'H c = s), ldpc BpOsdDecoder.decode (return value solves H c = s for s in im H), uf_support.Support '
-              '(returns a solution of H c = s); each contract is tested on every run by the spy. Tested only, not '
+              'H c = s), ldpc BpOsdDecoder.decode (return value solves H c = s for s in im H); each contract is '
+              'tested on every run by the spy. uf_support.Support is not a black box: its internals are modelled, tied '
+              'by a step-granular correspondence (growth states, parent arrays incl. path compression, cluster '
+              'records, spanning trees, peeling rounds, correction) and proved totally correct on closed graphs for '
+              'every set iteration order; CPython set iteration order is not modelled: recorded from the run and fed '
+              'to the model, which validates it. Not proved for all sizes: that Toric2DCode with sides >= 3 has '
+              'closed-graph sector matrices (evaluated per size by the compiled model and independently in numpy; '
+              'decide for 3x3). Tested only, not '
               'proved: constructibility of every (decoder, allowed code) pair; "returns a binary length-2n vector '
               'without raising" for the sweep-match decoders, whose sweepers are modelled by interface only (sweep '
               'automata: C10). MBP: the float message passing (log_exp_bias, tanh_prod, gamma/delta updates) is not '
@@ -69,7 +88,12 @@ TRUSTED = ['PyMatching Matching(H, spacelike_weights=w).decode(s): minimum-weigh
            '(contract hypothesis; tested against the full coset in C09)',
            'ldpc BpOsdDecoder.decode(s): returned vector solves H c = s whenever s is in the image of H; it is a '
            'function of (matrix, channel probabilities, syndrome) (contract hypothesis; tested by the spy)',
-           'panqec uf_support.Support(s, H).decode(): solves H c = s on the toric code (contract hypothesis; tested)',
+           'panqec uf_support.Support(s, H).decode(): contract hypothesis of the glue theorem in Properties/C05, '
+           'DISCHARGED for the Lean model of the internals on closed graphs by Properties/C05UnionFind '
+           '(uf_solver_contract, every set iteration order); model tied to the implementation by a step-granular '
+           'correspondence on every run; numpy/scipy semantics of the matrix operations used by uf_support.py '
+           '(boolean-mask assignment on csr matrices, np.where order, np.unique, uint8 product H @ H.T, set '
+           'iteration order fixed for one set object) as transcribed',
            'SweepDecoder3D / RotatedSweepDecoder3D .decode return a Z-only vector of length 2n (black box here; C10)',
            'XCubeMatchingDecoder: CPython iteration order of a set of at most four ints below 8 is ascending '
            '(list(nodes_in_component)[0] becomes plane_proj); set.pop() order does not change the set of popped nodes; '
@@ -78,6 +102,7 @@ TRUSTED = ['PyMatching Matching(H, spacelike_weights=w).decode(s): minimum-weigh
 ASSUMPTIONS = ['syndromes are syndromes of Pauli errors (s = H e); parity-check entries are 0/1',
                'per-qubit marginals px+py, pz+py lie in (0, 1/2) for the zero-syndrome claim (positive weights)']
 ANCHOR_FILES = ['panqec/decoders/matching/_matching_decoder.py', 'panqec/decoders/union_find/uf_decoder.py',
+                'panqec/decoders/union_find/uf_support.py',
                 'panqec/decoders/belief_propagation/bposd_decoder.py',
                 'panqec/decoders/sweepmatch/_sweep_match_decoder.py',
                 'panqec/decoders/sweepmatch/_rotated_sweep_match_decoder.py',
@@ -681,6 +706,10 @@ def correspondence(ctx):
     # --- MemoryBeliefPropagationDecoder: integer/boolean glue (Model/MbpDecoder.lean), see harness/mbp_dec.py
     from harness import mbp_dec
     streams.append(mbp_dec.mbp_stream(ctx, ctx.np_rng(56)))
+
+    # --- internals of the union-find decoder (uf_support.py) against Model/UnionFind.lean, step by step
+    from harness import uf_internals
+    streams.extend(uf_internals.streams(ctx))
     return streams
 
 
